@@ -6,6 +6,7 @@ import (
 	"path/filepath"
 	"sort"
 	"strings"
+	"time"
 
 	intoto "github.com/in-toto/in-toto-golang/in_toto"
 
@@ -39,7 +40,7 @@ func (k c08Case) String() string {
 func c08Cases(c *core.Ctx) []c08Case {
 	var out []c08Case
 	linkDefects := []string{"missing-link", "link-by-unauthorized-key", "tampered-link"}
-	layoutDefects := []string{"layout-signed-by-wrong-key", "expired", "rule-violation", "failing-inspection", "threshold-not-met"}
+	layoutDefects := []string{"layout-signed-by-wrong-key", "expired", "rule-violation", "failing-inspection", "inspection-rule-violation", "threshold-not-met"}
 	for _, dsse := range []bool{false, true} {
 		for _, runDir := range []bool{false, true} {
 			depths := []int{2, 3}
@@ -140,7 +141,11 @@ func runC08(c *core.Ctx) {
 			case "layout-signed-by-wrong-key":
 				d.SignLayout = &outsider
 			case "expired":
-				d.Expires = "2001-01-01T00:00:00Z"
+				// expired ten minutes ago (not years ago: boundary handling matters)
+				d.Expires = gen.Expires(-10 * time.Minute)
+			case "inspection-rule-violation":
+				// the inspection command succeeds, but its rules do not hold for the directory
+				d.Inspect[0].ExpectedMaterials = [][]string{{"DISALLOW", "*"}}
 			case "rule-violation":
 				d.LayoutHook = func(l *intoto.Layout) { l.Steps[2].ExpectedProducts = [][]string{{"DISALLOW", "*"}} }
 			case "threshold-not-met":
@@ -245,6 +250,9 @@ func runC08(c *core.Ctx) {
 						if k.Special == "twin-sublayouts" && l == k.Level {
 							continue // the intact twin may have been verified completely before the defective one
 						}
+						if k.Defect == "inspection-rule-violation" && l == k.Level {
+							continue // that inspection's command runs, it is its rule that fails afterwards
+						}
 						if contains(markers, fmt.Sprintf("L%d", l)) && !(k.Defect == "failing-inspection" && l > k.Level) {
 							c.Violation(fmt.Sprintf("inspection of level %d ran although the nesting was rejected at level %d (%s)", l, k.Level, label), id, detail)
 						}
@@ -277,7 +285,7 @@ func init() {
 	core.Register(&core.Property{
 		ID:    "C08",
 		Level: "exploration",
-		Rule: "nestings of 2 and 3 (thorough: also 4) layouts built bottom-up (each layout: steps prep / sub / final, step sub delegated to a sublayout signed by the functionary's key, links in <step>.<keyid8>/, one inspection with a marker per level); one defect from {sublayout signed by a wrong key, expired, rule violation, failing inspection, threshold not met, missing link, link signed by an unauthorized key, tampered link} at every level x every step; parent rules of the 'true summary' flavour (must hold) and of the 'inner artifact' flavour (must fail); a sublayout offered by an unauthorized functionary next to honest evidence (must not be followed: no sublayout_enter, no marker); threshold-2 step with one plain link + one sublayout (agreeing / disagreeing); threshold-1 step with an honest plain link plus a (sound / expired / incomplete) sublayout from a second authorized functionary; threshold-2 step with the same sublayout from two functionaries, a link missing in one directory only (repeated for map order); x 2 wrappers x 2 entry points. Oracle: ground truth by construction + markers + sublayout_enter events + trace automaton. " +
+		Rule: "nestings of 2 and 3 (thorough: also 4) layouts built bottom-up (each layout: steps prep / sub / final, step sub delegated to a sublayout signed by the functionary's key, links in <step>.<keyid8>/, one inspection with a marker per level); one defect from {sublayout signed by a wrong key, expired ten minutes ago, rule violation, failing inspection command, violated inspection rule, threshold not met, missing link, link signed by an unauthorized key, tampered link} at every level x every step; parent rules of the 'true summary' flavour (must hold) and of the 'inner artifact' flavour (must fail); a sublayout offered by an unauthorized functionary next to honest evidence (must not be followed: no sublayout_enter, no marker); threshold-2 step with one plain link + one sublayout (agreeing / disagreeing); threshold-1 step with an honest plain link plus a (sound / expired / incomplete) sublayout from a second authorized functionary; threshold-2 step with the same sublayout from two functionaries, a link missing in one directory only (repeated for map order); x 2 wrappers x 2 entry points. Oracle: ground truth by construction + markers + sublayout_enter events + trace automaton. " +
 			"non-trivial = at least one sublayout entered or deliberately not entered; distinct = (depth, defect, level, step, flavour, special, wrapper, entry point)",
 		Assumptions: []string{"sublayouts are signed with keys (the library looks the key up in the parent's keys section); certificate-authorized sublayout signers are not exercised"},
 		Workers:     func(string) int { return 16 },
